@@ -224,12 +224,13 @@ class Module:
             raise AnalysisError("parse error in %s: %s" % (relpath, e))
         # locals renamed by a refactoring are renamed back to the names the rules know (sa/alpha.py)
         self.alpha_renamed = 0
-        if os.environ.get("SA_NO_ALPHA") != "1":
-            from sa import alpha
-            self.alpha_renamed = alpha.normalise_module(self.tree, relpath)
+        # spelling first, names second: the reference shapes (sa/alpha_refs.json) are recorded from the spelling-normalised tree too
         if os.environ.get("SA_NO_NORMAL") != "1":
             from sa import normal
             normal.normalise(self.tree)
+        if os.environ.get("SA_NO_ALPHA") != "1":
+            from sa import alpha
+            self.alpha_renamed = alpha.normalise_module(self.tree, relpath)
         self.name = relpath[:-3].replace("/", ".")
         if self.name.endswith(".__init__"):
             self.name = self.name[:-9]
